@@ -296,7 +296,7 @@ func TestVerifC02(t *testing.T) {
 			Coq:        coq,
 			Defs:       defs,
 			Nontrivial: res != nil && res.IsFiltered && o.OrigKept || len(q.Answer.Answer) > 0,
-			Classes:    append(classes, extra...),
+			Classes:    append(append(classes, plSubnetClasses(ps.cfg, q)...), extra...),
 			MonitorOK:  ok,
 			MonitorMsg: msg,
 			Desc: map[string]any{"config": ps.cfg.Desc(), "name": q.Name, "qtype": dns.TypeToString[q.QType], "client": q.Addr.String(),
@@ -419,6 +419,22 @@ func TestVerifC02(t *testing.T) {
 		emit(plNewServer(t, c5), &plQuery{Name: "x.test.", QType: dns.TypeA, Addr: cli, Answer: plMsg(0, plCNAME("x.test.", 330, "xa.test."), good)}, "prelude-hosts-rule-target")
 	}
 
+	for k := 0; k < 4; k++ {
+		// two clients identified by nested subnets with different filtering
+		// flags: the answer with a blocked CNAME is replaced exactly for the
+		// addresses whose most specific subnet has filtering on
+		c := base()
+		inner := plClient{Name: "kids-net", Subnets: []string{"10.0.0.0/24"}, UseOwn: true, Filtering: k%2 == 0}
+		outer := plClient{Name: "whole-lan", Subnets: []string{"10.0.0.0/8"}, UseOwn: true, Filtering: k%2 != 0}
+		c.Clients = []plClient{inner, outer}
+		if k >= 2 {
+			c.Clients = []plClient{outer, inner}
+		}
+		ps := plNewServer(t, c)
+		for _, a := range []string{"10.0.0.2", "10.0.1.7", "192.168.1.5"} {
+			emit(ps, &plQuery{Name: "x.test.", QType: dns.TypeA, Addr: netip.MustParseAddr(a), Answer: plMsg(0, bad, good)}, "prelude-nested-subnets")
+		}
+	}
 	{
 		// an allow-listed hint in front of a blocked hint, same list and across lists
 		c := base()
